@@ -629,6 +629,48 @@ digits_reserve_harness!(digits_reserve_i128, i128, v, v < 0, (v as i128).unsigne
 digits_reserve_harness!(digits_reserve_u128, u128, v, false, v as u128);
 
 // ---------------------------------------------------------------------------------------------
+// base case of the induction: the public constructor establishes Inv (empty buffer with a non-zero
+// capacity, no parked error, panicked == false), and a first write + flush delivers exactly it.
+
+#[kani::proof]
+pub fn base_from_write() {
+    unsafe {
+        G_WRITTEN = 0;
+        G_BASE = 0;
+        G_W = 0;
+        G_WB = kani::any();
+        G_SEEN = false;
+        G_SUNK_IN_OP = 0;
+        G_OP_BASE = 0;
+        G_CALLS = 0;
+        G_FLUSH_CALLS = 0;
+        G_FAILED_IN_OP = false;
+        G_INTR = 0;
+        G_SHORT_DONE = false;
+        G_ORDER_OK = true;
+        M_MAY_FAIL = false;
+        M_MAY_SHORT = false;
+        M_MAY_INTR = false;
+    }
+    let mut wr = DeferredWriter::from_write(Sink);
+    assert!(wr.buf.is_empty() && wr.buf.capacity() >= 1);
+    assert!(wr.io_error.is_none() && !wr.panicked);
+    let b = unsafe { G_WB };
+    wr.write_all_defer_err(&[b]);
+    unsafe {
+        assert!(G_CALLS == 0, "a single byte is buffered, not written through");
+    }
+    assert!(wr.buf.len() == 1);
+    wr.flush_defer_err();
+    unsafe {
+        assert!(G_ORDER_OK && G_SEEN && G_SUNK_IN_OP == 1, "first byte not delivered exactly once");
+    }
+    assert!(wr.buf.is_empty());
+    assert!(wr.check_io_error().is_ok());
+    forget(wr);
+}
+
+// ---------------------------------------------------------------------------------------------
 // vacuity twin
 
 #[kani::proof]
